@@ -4,7 +4,8 @@ PROP = dict(
     title="Match and destructuring select the first matching arm and bind correctly",
     lean_module="AbraProofs.Properties.C14",
     required_theorems=["C14_patCompare_correct", "C14_patBind_correct", "C14_let_destructuring",
-                       "C14_match_takes_first_pass", "C14_match_selects_first_partial", "C14_d27_regression"],
+                       "C14_match_takes_first_pass", "C14_match_selects_first_partial", "C14_d27_regression",
+                       "C14_let_accepted_binds"],
     harness_bin="c14",
     mismatch_is_violation=True,
     rule="(scrutinee type, accepted arm list, value) triples over the universe of C12 (harness/src/patuniv.rs): 420 (quick) / "
@@ -16,7 +17,7 @@ PROP = dict(
          "emitted code run on the model VM; spec oracle: Rust reference (first matching arm, bindings of the first matching "
          "alternative); the shapes of the repaired defects D27, D31, D46, D47 are unconditionally in the main stream and their original inputs (incl. the "
          "compile hang, in a child process with a time limit, re-run alone before a timeout counts) are hard regression checks: a wrong output is a spec failure; "
-         "non-trivial = the arm taken is not arm 0, or something is bound, or an or-pattern occurs",
+         "coverage-guided additions: a struct without fields (also as payload and tuple component), a generic enum with named fields, single-variant enums; 220 (quick) / 4000 irrefutable let / annotated let / var / for / let-in-function patterns with variant, named-variant and or sub-patterns, bound values compared with the model (pc let) and with the reference (first matching alternative); hard regression programs D97, B15, A09; non-trivial = the arm taken is not arm 0, or something is bound, or an or-pattern occurs",
     nontrivial=lambda req, imp: not imp.startswith("arm=0 leak=0") or "=" in imp.split("leak=0", 1)[-1] or " or " in req,
     trusted_base=COMMON_TB + [
         "the VM's instruction semantics for the 18 instructions the pattern code uses (Abra.PatCompile.step), the run-time representation of values (repr) and forward-jump resolution are modelled, not proved against vm.rs; the tie observes arm index, bound values and stack balance, not the instruction stream",
